@@ -407,7 +407,8 @@ type workerProc struct {
 }
 
 func startWorker() (*workerProc, error) {
-	args := []string{"-worker"}
+	// workers get the same command line (scenario sets may depend on harness flags such as -prop) plus -worker
+	args := append([]string{"-worker"}, os.Args[1:]...)
 	cmd := exec.Command(os.Args[0], args...)
 	cmd.Env = append(os.Environ(), "GOMAXPROCS=2")
 	cmd.Stderr = os.Stderr
